@@ -170,10 +170,14 @@ func vHTTPRequests(n int) {
 				}
 				req.Body = body
 				// the length of a streamed (chunked) body is unknown to the server: -1; otherwise it is the byte count
-				req.ContentLength = []int64{-1, 16}[vrt.Choice(id+".length", 2)]
-				// a level in the query string as well: with a non-form content type the body is what counts
-				if vrt.Choice(id+".query", 2) == 1 {
-					req.Form = url.Values{"level": []string{"debug"}}
+				// (in sequences of requests these two vary for the last request only)
+				req.ContentLength = 16
+				if i == n-1 {
+					req.ContentLength = []int64{-1, 16}[vrt.Choice(id+".length", 2)]
+					// a level in the query string as well: with a non-form content type the body is what counts
+					if vrt.Choice(id+".query", 2) == 1 {
+						req.Form = url.Values{"level": []string{"debug"}}
+					}
 				}
 			case 2: // another content type with a malformed body
 				req.Header.Set("Content-Type", "text/plain")
